@@ -79,6 +79,25 @@ pub fn sources() -> Vec<String> {
             }
         }
     }
+    // item shapes beyond attributes: visibility, where clauses, bounds and defaults on parameters,
+    // explicit discriminants - everything around the variants must come out unchanged
+    let shapes = [
+        "pub enum T { #[token(\"a\")] A }",
+        "pub(crate) enum T { #[token(\"a\")] A, #[regex(\"b+\")] B }",
+        "#[logos(type X = &str)] enum T<X> where X: Clone + core::fmt::Debug { #[regex(\"a+\")] A(X), #[token(\"b\")] B }",
+        "#[logos(type X = &str)] pub enum T<X> where X: core::ops::Deref, <X as core::ops::Deref>::Target: core::fmt::Debug, { #[regex(\"a+\")] A(X) }",
+        "enum T<'a> where 'a: 'static { #[regex(\"a+\")] A(&'a str) }",
+        "#[repr(u8)] enum T { #[token(\"a\")] A = 1, #[token(\"b\")] B = 7 }",
+        "#[logos(type X = u8)] pub enum T<X: Copy = u8> { #[regex(\"a+\", |_| 1)] A(X) }",
+        "enum T<'a, 'b: 'a> { #[regex(\"a+\")] A(&'a &'b str), #[token(\"b\")] B }",
+        "pub(in crate) enum r#T { #[token(\"a\")] r#A, #[token(\"b\")] B }",
+    ];
+    for sh in shapes {
+        for d in ["Logos", "Debug, Logos, Clone", "Debug, logos::Logos"] {
+            v.push(format!("#[derive({d})]\n{sh}\n"));
+            v.push(format!("/// doc\n#[derive({d})]\n#[allow(dead_code)]\n{sh}\n"));
+        }
+    }
     v.sort();
     v.dedup();
     v
@@ -145,6 +164,7 @@ pub fn c17(a: &Args) -> Report {
     rep.samples.push(json!({"source": srcs[srcs.len() / 2], "checked": "logos-cli stdout == own strip + generate() as token streams; output parses with syn::parse_file"}));
     // ---- histories of invocations against the model file in {absent, fresh, fresh-CRLF, stale}
     histories(&cli, &work, &mut rep);
+    histories_format(&cli, &work, &mut rep);
     let _ = std::fs::remove_dir_all(&work);
     rep
 }
@@ -264,6 +284,116 @@ fn histories(cli: &Path, work: &Path, rep: &mut Report) {
     rep.count("evaluations", n_hist);
     rep.count("distinct_nontrivial", n_hist);
     rep.count("traces_validated_against_impl", n_hist);
+}
+
+/// the same invocation histories with `--format` as a further choice at every write / check: the
+/// model is the file content itself (check succeeds iff the content equals, line by line, the
+/// output of the same invocation mode)
+fn histories_format(cli: &Path, work: &Path, rep: &mut Report) {
+    let have_rustfmt = std::process::Command::new("rustfmt").arg("--version").output().map(|o| o.status.success()).unwrap_or(false);
+    if !have_rustfmt {
+        rep.notes.push("rustfmt is not on PATH: the --format histories were not explored".into());
+        return;
+    }
+    let src = "#[derive(Logos, Debug)]\n#[logos(skip \" \")]\nenum T {\n    #[token(\"a\")]\n    A,\n    #[regex(\"[0-9]+\")]\n    N,\n}\n";
+    let inp = work.join("histf_in.rs");
+    std::fs::write(&inp, src).unwrap();
+    let plain = run_cli(cli, &[inp.to_str().unwrap()]).1;
+    let (fcode, formatted, ferr) = run_cli(cli, &[inp.to_str().unwrap(), "--format"]);
+    // independent expectation for --format: rustfmt applied to the plain output by the harness itself
+    let own = {
+        use std::io::Write;
+        let mut ch = std::process::Command::new("rustfmt").stdin(std::process::Stdio::piped()).stdout(std::process::Stdio::piped()).stderr(std::process::Stdio::null()).spawn().expect("rustfmt");
+        ch.stdin.take().unwrap().write_all(plain.as_bytes()).unwrap();
+        String::from_utf8_lossy(&ch.wait_with_output().unwrap().stdout).to_string()
+    };
+    rep.count("evaluations", 1);
+    // (stdout carries one more newline from println!; files hold rustfmt's output as it is)
+    if fcode != 0 || formatted.trim_end() != own.trim_end() || own.trim().is_empty() || syn::parse_file(&formatted).is_err() {
+        rep.violations.push(Violation { key: "CLI-FORMAT".into(), tag: "CLI-OUTPUT".into(), case: "--format on stdout".into(), detail: format!("exit {fcode} {ferr}; the --format output is not rustfmt(plain output) or does not parse"), replay: json!({"kind": "c17", "tag": "CLI-OUTPUT"}) });
+        return;
+    }
+    let formatted = own;
+    let ops = ["write", "writef", "check", "checkf", "delete"];
+    let mut all: Vec<Vec<&str>> = vec![];
+    let mut q: VecDeque<Vec<&str>> = VecDeque::new();
+    q.push_back(vec![]);
+    while let Some(h) = q.pop_front() {
+        if h.len() == 3 {
+            continue;
+        }
+        for op in ops {
+            let mut h2 = h.clone();
+            h2.push(op);
+            all.push(h2.clone());
+            q.push_back(h2);
+        }
+    }
+    let results: Vec<Option<String>> = all
+        .par_iter()
+        .enumerate()
+        .map(|(n, h)| {
+            let out = work.join(format!("histf_out_{n}.rs"));
+            let _ = std::fs::remove_file(&out);
+            let mut bad = None;
+            for (k, step) in h.iter().enumerate() {
+                let before = std::fs::read(&out).ok();
+                let before_text = before.as_ref().map(|b| String::from_utf8_lossy(b).to_string());
+                let (is_write, fmt) = match *step {
+                    "write" => (true, false),
+                    "writef" => (true, true),
+                    "check" => (false, false),
+                    "checkf" => (false, true),
+                    _ => {
+                        let _ = std::fs::remove_file(&out);
+                        continue;
+                    }
+                };
+                let want = if fmt { &formatted } else { &plain };
+                let mut args = vec![inp.to_str().unwrap(), "--output", out.to_str().unwrap()];
+                if fmt {
+                    args.push("--format");
+                }
+                if !is_write {
+                    args.push("--check");
+                }
+                let (code, _, err) = run_cli(cli, &args);
+                let after = std::fs::read(&out).ok();
+                let up_to_date = before_text.as_ref().map_or(false, |t| t.lines().eq(want.lines()));
+                if is_write {
+                    let text = String::from_utf8_lossy(after.as_deref().unwrap_or(b"")).to_string();
+                    if code != 0 || !text.lines().eq(want.lines()) {
+                        bad = Some(format!("step {k} {step}: exit {code} {err}; afterwards the file does not hold the {} output", if fmt { "formatted" } else { "plain" }));
+                    } else if up_to_date && after != before {
+                        bad = Some(format!("step {k} {step}: the file was up to date but was rewritten"));
+                    }
+                } else {
+                    if (code == 0) != up_to_date {
+                        bad = Some(format!("step {k} {step}: --check exit {code}, but the file {} the {} output", if up_to_date { "holds" } else { "does not hold" }, if fmt { "formatted" } else { "plain" }));
+                    }
+                    if after != before {
+                        bad = Some(format!("step {k} {step}: --check modified the file"));
+                    }
+                }
+            }
+            let _ = std::fs::remove_file(&out);
+            bad
+        })
+        .collect();
+    for (h, bad) in all.iter().zip(results) {
+        rep.count("transitions", h.len() as u64);
+        if let Some(m) = bad {
+            if rep.violations.len() < 50 {
+                rep.violations.push(Violation { key: format!("CLI-CHECK/format/{h:?}"), tag: "CLI-CHECK".into(), case: format!("history (with --format) {h:?}"), detail: m, replay: json!({"kind": "c17", "tag": "CLI-CHECK", "history": h}) });
+            }
+        }
+    }
+    let n = all.len() as u64;
+    rep.count("histories", n);
+    rep.count("format_histories", n);
+    rep.count("evaluations", n);
+    rep.count("distinct_nontrivial", n);
+    rep.count("traces_validated_against_impl", n);
 }
 
 pub fn replay(a: &Args, rec: &serde_json::Value) -> Report {
